@@ -17,22 +17,23 @@ set_option maxHeartbeats 1000000 in
 /-- a schema consisting of `type` only is decided by the type check -/
 theorem valid_type_only (n : Nat) (t : String) (d : JsVal) :
     valid P0 (n+1) (.obj [("type", .str t)]) d = some (typeOk t d) := by
-  unfold valid
-  simp only [lookupProp, List.find?]
-  cases d <;> simp (config := {decide := true})
+  simp only [valid, validG, cType, cConst, cEnum, cAny, cOne, cAll, cNot, cRef, cPattern, cFormat, cObj, cArr, declaredOf, prefixOf,
+    lookupProp, List.find?]
+  cases d <;> simp (config := {decide := true}) [allO]
 
 set_option maxHeartbeats 1000000 in
 theorem valid_empty (n : Nat) (d : JsVal) : valid P0 (n+1) (.obj []) d = some true := by
-  unfold valid
-  simp only [lookupProp, List.find?]
-  cases d <;> simp (config := {decide := true})
+  simp only [valid, validG, cType, cConst, cEnum, cAny, cOne, cAll, cNot, cRef, cPattern, cFormat, cObj, cArr, declaredOf, prefixOf,
+    lookupProp, List.find?]
+  cases d <;> simp (config := {decide := true}) [allO]
 
 set_option maxHeartbeats 1000000 in
 theorem valid_not_empty (n : Nat) (d : JsVal) : valid P0 (n+2) (.obj [("not", .obj [])]) d = some false := by
-  unfold valid
-  simp only [lookupProp, List.find?]
   have h := valid_empty n d
-  cases d <;> simp (config := {decide := true}) [h]
+  show validG P0 (valid P0 (n+1)) (lookupProp [("not", .obj [])]) d = some false
+  simp only [validG, cType, cConst, cEnum, cAny, cOne, cAll, cNot, cRef, cPattern, cFormat, cObj, cArr, declaredOf, prefixOf,
+    lookupProp, List.find?]
+  cases d <;> simp (config := {decide := true}) [allO, h]
 
 /-- `string`, `number`, `boolean`: a JSON document is valid against the emitted schema `{type: t}` exactly when the
 validator accepts it (every document, every fuel). -/
